@@ -24,7 +24,9 @@ TRUSTED_BASE = [
     "harness/props/C12.py driver+observer and the Gallina literal printer (T2, differential testing, not a proof)",
     "Model/DataCollector.v is a hand transcription of mesa/datacollection.py; dict = insertion-ordered association list, "
     "deepcopy = reading the store into an immutable value, reporters = terms of a small DSL built identically as Python callables",
-    "pandas is external: the frames are modelled as the re-indexing of the records and compared by T2 and the oracle only",
+    "pandas is external: the frames (index names, column labels and order, row order, values) are modelled as pure list "
+    "functions of the records (model_frame / agent_frame / type_frame / table_frame), compared with pandas' result by T2 on "
+    "every Frames operation; C12_frames_lossless is about the modelled frames",
     "Uint63 primitive hash only in scratch Cases files, never under a theorem",
 ]
 ASSUMPTIONS = [
@@ -734,6 +736,29 @@ def run_impl(case):
     return {"obs": obs, "failures": failures}
 
 
+def _label(name):
+    """column / index label -> the model's code: r<n>, c<n> -> n; Step -> 100; AgentID -> 101; None -> -1"""
+    if name is None:
+        return -1
+    if name == "Step":
+        return 100
+    if name == "AgentID":
+        return 101
+    return _num(name)
+
+
+def _enc_cframe(df, rows, cell):
+    """a frame with the default index: [index is 0..n-1] + column labels + rows"""
+    return ([1 if list(df.index) == list(range(len(df))) else 0] + _enc_list(lambda c: [_label(c)], list(df.columns))
+            + _enc_list(lambda r: _enc_list(cell, list(r)), rows))
+
+
+def _enc_aframe(df, recs):
+    """a (Step, AgentID)-indexed frame: index names + value-column labels + rows (step, id, cells)"""
+    return (_enc_list(lambda c: [_label(c)], list(df.index.names)) + _enc_list(lambda c: [_label(c)], list(df.columns))
+            + _enc_list(_enc_row, recs))
+
+
 def _obs_frames(dc, cfg, cls, sh, i, fail):
     """build every DataFrame; returns the observation (same layout as enc_frames of the model) and judges
     each frame against the shadow records: index names, column order, row order, values."""
@@ -744,7 +769,7 @@ def _obs_frames(dc, cfg, cls, sh, i, fail):
     try:
         df = dc.get_model_vars_dataframe()
         rows = _frame_rows(df)
-        out += [0] + _enc_list(lambda r: _enc_list(_enc_snap, list(r)), rows)
+        out += [0] + _enc_cframe(df, rows, _enc_snap)
         cols = [f"r{n}" for n, _ in sh["mv"]]
         lens = {len(l) for _, l in sh["mv"]}
         if len(lens) == 1:
@@ -765,7 +790,7 @@ def _obs_frames(dc, cfg, cls, sh, i, fail):
     try:
         df = dc.get_agent_vars_dataframe()
         recs = _frame_recs(df)
-        out += [0] + _enc_list(_enc_row, recs)
+        out += [0] + _enc_aframe(df, recs)
         exp = [r for _, rows in sh["ar"] for r in rows]
         cols = [f"r{n}" for n, _ in cfg["areps"]]
         if recs != exp or list(df.columns) != cols or list(df.index.names) != ["Step", "AgentID"]:
@@ -782,7 +807,7 @@ def _obs_frames(dc, cfg, cls, sh, i, fail):
             warnings.simplefilter("ignore")
             df = dc.get_agenttype_vars_dataframe(cls[t])
         recs = _frame_recs(df)
-        out += [t] + _enc_list(_enc_row, recs)
+        out += [t] + _enc_aframe(df, recs)
         exp = [r for _, inner in sh["tr"] for tt, rows in inner if tt == t for r in rows]
         cols = [f"r{n}" for n, _ in reps]
         if recs != exp or list(df.columns) != cols or list(df.index.names) != ["Step", "AgentID"]:
@@ -794,7 +819,7 @@ def _obs_frames(dc, cfg, cls, sh, i, fail):
         try:
             df = dc.get_table_dataframe(f"t{t}")
             rows = _frame_rows(df)
-            out += [t, 0] + _enc_list(lambda r: _enc_list(_enc_cell, list(r)), rows)
+            out += [t, 0] + _enc_cframe(df, rows, _enc_cell)
             lens = {len(v) for _, v in cols}
             if len(lens) == 1:
                 n = lens.pop()
